@@ -40,7 +40,6 @@ import (
 
 	"github.com/btcsuite/btcd/btcutil/v2"
 	"github.com/btcsuite/btcd/chainhash/v2"
-	"github.com/btcsuite/btcd/wire/v2"
 	"github.com/lightningnetwork/lnd/chainntnfs"
 	"github.com/lightningnetwork/lnd/channeldb"
 	"github.com/lightningnetwork/lnd/internal/verif/vstats"
@@ -1712,5 +1711,3 @@ func TestVerifC14MachineBolt(t *testing.T) {
 		c14RunCase(t, st, true, maxLen)
 	})
 }
-
-var _ = wire.OutPoint{}
